@@ -102,7 +102,17 @@ func (m *mMLS) swap(o multi)  { m.g.Swap(o.(*mMLS).g) }
 func (m *mMLS) geomT() geom.T { return m.g }
 func (m *mMLS) reserve(n int)  { m.g.Reserve(n) }
 func (m *mMLS) num() int      { return m.g.NumLineStrings() }
-func (m *mMLS) part(i int) string { return sxG1p(m.g.LineString(i)) }
+func (m *mMLS) part(i int) string {
+	ls := m.g.LineString(i)
+	out := sxG1p(ls)
+	if ls.NumCoords() == 0 && ls.Stride() > 0 {
+		// the caller builds on the empty part it was handed: that is the caller's own value
+		c := make(geom.Coord, ls.Stride())
+		c[0] = 77
+		ls.MustSetCoords([]geom.Coord{c, c})
+	}
+	return out
+}
 func (m *mMLS) coords() string { return sxCoords2(m.g.Coords()) }
 
 type mMP struct{ g *geom.MultiPoint }
@@ -120,7 +130,16 @@ func (m *mMP) swap(o multi)  { m.g.Swap(o.(*mMP).g) }
 func (m *mMP) geomT() geom.T { return m.g }
 func (m *mMP) reserve(n int)  { m.g.Reserve(n) }
 func (m *mMP) num() int      { return m.g.NumPoints() }
-func (m *mMP) part(i int) string { return sxG1p(m.g.Point(i)) }
+func (m *mMP) part(i int) string {
+	pt := m.g.Point(i)
+	out := sxG1p(pt)
+	if pt.Empty() && pt.Stride() > 0 {
+		c := make(geom.Coord, pt.Stride())
+		c[0] = 77
+		pt.MustSetCoords(c)
+	}
+	return out
+}
 func (m *mMP) coords() string { return sxMCoords(m.g.Coords()) }
 
 type mMPoly struct{ g *geom.MultiPolygon }
@@ -148,7 +167,16 @@ func (m *mMPoly) reserve(n int)  { m.g.Reserve(n) }
 func (m *mMPoly) num() int     { return m.g.NumPolygons() }
 func (m *mMPoly) part(i int) string {
 	p := m.g.Polygon(i)
-	return fmt.Sprintf("(%d %d %s %s)", int(p.Layout()), p.Stride(), sxCoord(p.FlatCoords()), sxInts(p.Ends()))
+	out := fmt.Sprintf("(%d %d %s %s)", int(p.Layout()), p.Stride(), sxCoord(p.FlatCoords()), sxInts(p.Ends()))
+	if p.NumLinearRings() == 0 && p.Stride() > 0 {
+		// the caller builds on the empty part it was handed: that is the caller's own value
+		c := make([]float64, 4*p.Stride())
+		c[0] = 77
+		if err := p.Push(geom.NewLinearRingFlat(p.Layout(), c)); err != nil {
+			panic(err)
+		}
+	}
+	return out
 }
 func (m *mMPoly) coords() string { return sxCoords3(m.g.Coords()) }
 
